@@ -134,6 +134,52 @@ def sdf_cycle(models, version):
     return None
 
 
+def per_record_metadata(how, n):
+    """every record of a multi-record file keeps its own metadata, however the records were created"""
+    f = mol.SDFile()
+    exp = {}
+    for i in range(n):
+        name = f"rec{i}"
+        a = molecule(["C", "O"][: 1 + i % 2], [0, 0][: 1 + i % 2], [(0, 1, BT.SINGLE)] if i % 2 else [])
+        if how == "SDRecord()":
+            rec = mol.SDRecord()
+            rec.header = mol.Header(mol_name=name)
+            rec.set_structure(a)
+            f[name] = rec
+        elif how == "SDRecord(header=...)":
+            rec = mol.SDRecord(header=mol.Header(mol_name=name))
+            rec.set_structure(a)
+            f[name] = rec
+        else:
+            rec = mol.SDRecord(header=mol.Header(mol_name=name), metadata=None)
+            rec.set_structure(a)
+            f[name] = rec
+        f[name].metadata[f"Key{i}"] = f"value {i}"
+        if i == 1:
+            f[name].metadata["Shared.Name"] = "only in record 1"
+        exp[name] = {f"Key{i}": f"value {i}", **({"Shared.Name": "only in record 1"} if i == 1 else {})}
+    fresh = mol.SDRecord()
+    if len(fresh.metadata) != 0:
+        return f"a new SDRecord() starts with metadata {dict((k.name, v) for k, v in fresh.metadata.items())}"
+    s = io.StringIO()
+    f.write(s)
+    g = mol.SDFile.read(io.StringIO(s.getvalue()))
+    if list(g.keys()) != list(exp):
+        return f"record names/order {list(g.keys())}"
+    for src, label in ((f, "file object"), (g, "re-read file")):
+        for name in exp:
+            got = {k.name: v for k, v in src[name].metadata.items()}
+            if got != exp[name]:
+                return f"{label}: record {name} has metadata {got}, expected {exp[name]}"
+    return None
+
+
+for how in ("SDRecord()", "SDRecord(header=...)", "SDRecord(metadata=None)"):
+    for n in (1, 2, 3):
+        R.check("SDF records: models become conformers and return; header/metadata/record order survive", "per-record metadata", {"records": n, "created by": how},
+                lambda how=how, n=n: per_record_metadata(how, n))
+
+
 def rename_contract(edit):
     """records read from a file, then renamed / edited, are written with the new names and headers"""
     f = mol.SDFile()
